@@ -340,3 +340,78 @@ def is_call_suffix(t, suffix):
     while isinstance(t, tuple) and t and t[0] in ('ref', 'deref') and len(t) == 2:
         t = t[1]
     return isinstance(t, tuple) and len(t) >= 3 and t[0] == 'call' and isinstance(t[1], str) and t[1].endswith(suffix)
+
+
+# ---------------------------------------------------------------------- order facts from path conditions
+def _lin_key(l):
+    return (tuple(sorted(((repr(k), v) for k, v in l[0].items()))), l[1])
+
+
+def _lin_diff(a, b):
+    la, ca = linear(a)
+    lb, cb = linear(b)
+    d = dict(la)
+    for k, v in lb.items():
+        d[k] = d.get(k, 0) - v
+        if d[k] == 0:
+            del d[k]
+    return d, ca - cb
+
+
+def order_facts(conds):
+    """normalised facts about integer terms from branch conditions: list of (rel, d) with d = linear(x - y) and
+    rel in {'<0', '<=0', '==0', '!=0'}; every comparison operator and both polarities are covered"""
+    out = []
+    for cnd in conds:
+        t = cnd[0]
+        if not (isinstance(t, tuple) and len(t) == 3 and t[0] in ('Lt', 'Le', 'Gt', 'Ge', 'Eq', 'Ne')):
+            continue
+        tr = cond_true(cnd)
+        fa = cond_false(cnd)
+        if not (tr or fa):
+            continue
+        op = t[0]
+        if fa:
+            op = {'Lt': 'Ge', 'Le': 'Gt', 'Gt': 'Le', 'Ge': 'Lt', 'Eq': 'Ne', 'Ne': 'Eq'}[op]
+        x, y = t[1], t[2]
+        if op in ('Gt', 'Ge'):
+            x, y = y, x
+            op = {'Gt': 'Lt', 'Ge': 'Le'}[op]
+        d = _lin_diff(x, y)
+        r_ = {'Lt': '<0', 'Le': '<=0', 'Eq': '==0', 'Ne': '!=0'}[op]
+        out.append((r_, d))
+        if r_ in ('==0', '!=0'):
+            out.append((r_, ({k: -v for k, v in d[0].items()}, -d[1])))
+    return out
+
+
+def implies_order(conds, rel, a, b):
+    """do the branch conditions imply  a rel b  (rel in '<', '<=', '==', '!=')? integer reasoning on identical linear forms"""
+    facts = order_facts(conds)
+    d = _lin_diff(a, b)
+    nd = ({k: -v for k, v in d[0].items()}, -d[1])
+
+    def has(r, dd):
+        # a fact on the same linear part whose constant makes it at least as strong
+        for (fr, fd) in facts:
+            if fd[0] != dd[0]:
+                continue
+            k = dd[1] - fd[1]           # dd = fd + k
+            if r == '<=0' and ((fr == '<=0' and k <= 0) or (fr == '<0' and k <= 1) or (fr == '==0' and k <= 0)):
+                return True
+            if r == '<0' and ((fr == '<0' and k <= 0) or (fr == '<=0' and k <= -1) or (fr == '==0' and k <= -1)):
+                return True
+            if r == '==0' and fr == '==0' and k == 0:
+                return True
+            if r == '!=0' and ((fr == '!=0' and k == 0) or (fr == '<0' and k <= 0) or (fr == '==0' and k != 0)):
+                return True
+        return False
+    if rel == '<=':
+        return has('<=0', d)
+    if rel == '<':
+        return has('<0', d) or (has('<=0', d) and (has('!=0', d) or has('!=0', nd)))
+    if rel == '==':
+        return has('==0', d) or has('==0', nd) or (has('<=0', d) and has('<=0', nd))
+    if rel == '!=':
+        return has('!=0', d) or has('!=0', nd) or has('<0', d) or has('<0', nd)
+    return False
